@@ -30,7 +30,8 @@ func TestMain(m *testing.M) { os.Exit(P.Main(m)) }
 func TestReplay(t *testing.T) { P.Replay(t) }
 
 type Case struct {
-	Tok tok.Tok `json:"tok"`
+	Tok  tok.Tok  `json:"tok"`
+	Next *tok.Tok `json:"next,omitempty"` // a second token encoded BEFORE the first one's outputs are decoded
 }
 
 func hasIntegralFloat(t tok.Tok) bool {
@@ -274,6 +275,26 @@ func run(c *h.Ctx, cs Case) {
 	} else {
 		c.P.Class("excluded:dagjson-integral-float")
 	}
+	// The outputs belong to the caller: encoding other tokens before decoding must not disturb them.
+	sealedCopy, jsCopy := append([]byte{}, sealed...), append([]byte{}, js...)
+	if cs.Next != nil {
+		if tk2, priv2, err := tok.Build(*cs.Next); err == nil {
+			for i := 0; i < 2; i++ {
+				_, _, _ = tk2.ToSealed(priv2)
+				_, _ = tk2.ToDagCbor(priv2)
+				_, _ = tk2.ToDagJson(priv2)
+				_, _, _ = tk.ToSealed(priv)
+				_, _ = tk.ToDagJson(priv)
+			}
+			c.P.Class("interleaved-encoding")
+		}
+	}
+	if !bytes.Equal(sealed, sealedCopy) {
+		c.Fail("C07/output-changed-by-later-call/sealed", "the bytes returned by ToSealed changed after encoding another token")
+	}
+	if js != nil && !bytes.Equal(js, jsCopy) {
+		c.Fail("C07/output-changed-by-later-call/dagjson/"+kind, "the bytes returned by ToDagJson changed after encoding another token (%d bytes)", len(js))
+	}
 	for _, dec := range decoders(kind) {
 		var got token.Token
 		var derr error
@@ -310,7 +331,13 @@ func run(c *h.Ctx, cs Case) {
 func draw(t *rapid.T) Case {
 	cfg := tok.GenCfg{Algs: keys.AllAlgs, ExtremeTime: true, NoTopNull: true,
 		Values: val.Cfg{Depth: 3, MaxLen: 3, SafeInts: true, Big: true, Keys: []string{"a", "b", "aa", "x", "é", "with space", "zz"}}}
-	return Case{Tok: tok.Gen(t, cfg)}
+	cs := Case{Tok: tok.Gen(t, cfg)}
+	if rapid.Bool().Draw(t, "interleave") {
+		small := tok.GenCfg{Algs: []keys.Alg{keys.Ed25519}, NoTopNull: true, OnlyFuture: true, Kinds: cs.Tok.Kind(), Values: val.Cfg{Depth: 1, MaxLen: 2, SafeInts: true, NoFloat: true}}
+		n := tok.Gen(t, small)
+		cs.Next = &n
+	}
+	return cs
 }
 
 var prop = h.Define(P, "roundtrip", draw, run)
